@@ -1007,10 +1007,21 @@ func ruleVD4(c *Ctx) {
 				return
 			}
 			for _, bf := range branchFacts(bse) {
-				curEnv = bf.A.Env
-				if bf.A.Kind == "const" && bf.Holds && constStr(bf.A.C) != "" && reach(bf.E.To(), nil, nil)[r.Blk] && directCase(bse, bf.E, r.Blk) {
-					if k, _ := lookupKeyOf(bf.A.X); k == "state" {
-						implicit[constStr(bf.A.C)] = true
+				if !bf.Holds && len(bf.Alts) == 0 {
+					continue
+				}
+				if !(reach(bf.E.To(), nil, nil)[r.Blk] && directCase(bse, bf.E, r.Blk)) {
+					continue
+				}
+				atoms := []factAtom{{bf.A, bf.Holds}}
+				for _, alt := range bf.Alts {
+					atoms = append(atoms, alt...)
+				}
+				for _, fa := range atoms {
+					if fa.A.Kind == "const" && fa.Holds && constStr(fa.A.C) != "" {
+						if k, _ := lookupKeyOf(resolveEnv(fa.A.X, fa.A.Env)); k == "state" {
+							implicit[constStr(fa.A.C)] = true
+						}
 					}
 				}
 			}
